@@ -38,8 +38,9 @@ pub fn Show(props: ShowProps) -> View {
                 utils::clone_nodes_via_web_sys(&children)
             } else {
                 // Wrap children inside a document fragment so that it can still be dynamically
-                // updated even though it is not mounted.
-                children = utils::wrap_in_document_fragment(cloned);
+                // updated even though it is not mounted. Nested dynamic views may have replaced
+                // some of the nodes since they were collected, so collect them again.
+                children = utils::wrap_in_document_fragment(utils::collect_live_nodes(cloned));
                 view! {}
             }
         })
